@@ -180,7 +180,12 @@ class Workspace:
                          CONFIG_TOML % (TARGET, opt_level))
         lock = os.path.join(self.root, "Cargo.lock")
         if not os.path.exists(lock):
-            shutil.copy(os.path.join(REPO, "Cargo.lock"), lock)
+            # the repository's lock file pins the versions that are in the offline cargo cache; it
+            # is untracked in /repo, so a copy is kept with the harness
+            src = os.path.join(REPO, "Cargo.lock")
+            if not os.path.exists(src):
+                src = os.path.join(HARNESS, "Cargo.lock.seed")
+            shutil.copy(src, lock)
 
     def crate_dir(self, name):
         return os.path.join(self.root, name)
